@@ -93,6 +93,9 @@ def run(prop, tier, replay=None):
         r["distinct"], r["wall_s"], nrej, len(first_bad)))
 
     verdict = vlib.Verdict(prop)
+    for sig, text in fs.CRASHES:
+        print("the spy harness process was killed by a crash in the code under test: %s" % sig)
+        verdict.add(sig, {"kind": "crash of the code under test outside any call the harness makes (the test process died)", "output": text})
     stalls = Counter()
     for ln in lines:
         if ln["ev"] == "Timeout":
@@ -161,7 +164,7 @@ def run(prop, tier, replay=None):
         "mc_configs": mc_info, "trace_spec_states": r["distinct"],
         "events": dict(acts), "scenario_sources": dict(Counter(sc.get("src") for sc in scenarios)),
         "scenarios_run_to_End": complete, "traces_fully_explained": len(first_bad) - nrej,
-        "stalls_reproduced": dict(stalls), "panics": dict(panics), "rejected_lines": dict(rejects),
+        "process_crashes": [c[0] for c in fs.CRASHES], "stalls_reproduced": dict(stalls), "panics": dict(panics), "rejected_lines": dict(rejects),
         "floods": [dict(ln["a"], trace=ln["t"], stalled_out=any(x["ev"] == "Timeout" for x in by_t[ln["t"]]), panicked=any(x["ev"] == "Panic" for x in by_t[ln["t"]]),
                         ran_to_End=by_t[ln["t"]][-1]["ev"] == "End") for ln in lines if ln["ev"] == "FloodInfo"],
         "max_subscribers": max([sum(1 for x in tl if x["ev"] == "SubscribeCalled") for tl in by_t.values()] or [0]),
